@@ -135,7 +135,7 @@ func c12FirstTouchRun(c *core.Ctx) {
 func c12ThreadsOutcome(dir string, sc goxScenario, cpu int) (string, procx.Outcome) {
 	drv.ClearDir(dir)
 	drv.WriteFiles(dir, sc.Files)
-	o := procx.Exec(procx.Run{Dir: dir, Args: []string{"--cpu", fmt.Sprint(cpu), "-f", "csv", sc.SQL}, Env: []string{"GOMAXPROCS=4"}, Stdin: sc.Stdin, Timeout: 120 * time.Second})
+	o := procx.Exec(procx.Run{Dir: dir, Args: []string{"--cpu", fmt.Sprint(cpu), "--wait-timeout", "120", "-f", "csv", sc.SQL}, Env: []string{"GOMAXPROCS=4"}, Stdin: sc.Stdin, Timeout: 120 * time.Second})
 	var sb strings.Builder
 	fmt.Fprintf(&sb, "exit: %d\nstdout: %q\nstderr: %q\n", o.Exit, o.Stdout, clipTo(o.Stderr, 600))
 	snap := drv.DirSnapshot(dir)
@@ -192,6 +192,11 @@ func c12ThreadsScenarioCPUs(c *core.Ctx, family, class string, sc goxScenario, r
 				continue
 			}
 			if got == want {
+				continue
+			}
+			if strings.Contains(o.Stderr, "timeout") {
+				// a wait that ran out (120 s) is the machine's load, not the program's result
+				c.Incomplete(fmt.Sprintf("family %s, scenario %s: a run with --cpu %d ended in a time-out; not judged", family, sc.Name, cpu))
 				continue
 			}
 			kind := "result-differs"
